@@ -2,9 +2,9 @@
    and Drain::next (re-translated from /repo on every run), evaluated by the IR semantics in the machine
    world with the function-boundary semantics of EquivElem.v, in terms of the list model. *)
 From Coq Require Import ZArith List Bool Lia Permutation.
-From MV Require Import Ast Eval Scalar Machine EquivDefs Prims EquivTac EquivElem EquivPop EquivRemove EquivInsert EquivSwapRemove EquivIter EquivExtSlice EquivExtend.
+From MV Require Import Ast Eval Scalar Machine EquivDefs Prims EquivTac EquivElem EquivPop EquivRemove EquivInsert EquivSwapRemove EquivIter EquivExtSlice EquivExtend DrainAt EquivDropGuard.
 From MV.Gen Require Import AstGen.
-From MV.Proofs Require Import Arith Logic Prim View OpsLocal Guards Grow CapHistory Drops Retain DrainIt Sentinel Core Refine IterAt Resize Clone CloneSlice Extend.
+From MV.Proofs Require Import Arith Logic Prim View OpsLocal Guards Grow CapHistory Drops Retain DrainIt Sentinel Core Refine IterAt Resize Clone CloneSlice Extend DrainGuardAt.
 Import ListNotations.
 Open Scope list_scope.
 Open Scope Z_scope.
@@ -185,5 +185,25 @@ Section SourceSpecs.
     destruct (yields sc) as [n p].
     rewrite extend_equiv by exact HF.
     unfold lift_m. destruct (extend cfg ncap v sc s) as [[a| | | | |] s']; simpl in *; tauto.
+  Qed.
+  (* `impl Drop for DropGuard` of Drain -- the `for` loop over what is left of the window and the move of
+     the tail, as regenerated -- on a well-formed Drain object: the vector is prefix ++ suffix and the
+     window has been destroyed exactly once (DrainIt.drain_gone); a destructor that panics inside this
+     cleanup is the only other outcome (Rust aborts there) *)
+  Theorem dropguard_drop_source s i0 d b bl off i j r F :
+    iter_get i0 s = (Val (IDrain d), s) -> drain_inv cfg s d b bl off i j r ->
+    NoDup (window bl i j) -> (forall e, In e (window bl i j) -> ledger s e = Live) ->
+    (S (Z.to_nat (j - i)) <= F)%nat ->
+    match run_guard_drop cfg ncap (FUEL + F) i0 s with
+    | (Norm _, s') => drain_gone cfg s s' d b bl i j r
+    | (Panic, _) | (Fail FAbort, _) | (Fail (FAllocAbort _ _), _) => True
+    | _ => False
+    end.
+  Proof.
+    intros Hi0 Hinv Hnd Hlive HF.
+    pose proof (drain_guard_at_spec cfg Hcfg Htracked (S (Z.to_nat (j - i))) s i0 d b bl off i j r Hi0 Hinv ltac:(lia) Hnd Hlive) as H.
+    rewrite (dropguard_drop_equiv cfg ncap i0 s (S (Z.to_nat (j - i))) F HF).
+    - unfold lift_m. destruct (drain_guard_at cfg (S (Z.to_nat (j - i))) i0 s) as [[a| | | | |] s']; simpl in *; tauto.
+    - intros E. destruct (drain_guard_at cfg (S (Z.to_nat (j - i))) i0 s) as [[a| | | | |] s']; simpl in *; try discriminate. exact H.
   Qed.
 End SourceSpecs.
